@@ -1573,4 +1573,123 @@ pub fn corr(run: &mut Run) {
     stream_programs(run);
     stream_families(run);
     stream_slices(run);
+    stream_graph_api(run);
+}
+
+/// G: the graph-level entry point (`Evaluator::evaluate_graph`, which `random_evaluate` and every
+/// application use) on straight-line programs whose OUTPUT node is an arbitrary node of the graph —
+/// in particular one that later nodes also consume — in the main graph and inside Call / Iterate
+/// bodies. Oracle: no panic, no error, and the value equals the node-by-node evaluation.
+fn stream_graph_api(run: &mut Run) {
+    let mut rng = run.rng("G");
+    for _ in 0..run.tier.scale(300, 3000) {
+        let st = *rng.pick(&[INT32, UINT64, INT64, UINT8, BIT]);
+        let t = if rng.chance(1, 2) { scalar_type(st) } else { array_type(vec![2, 2], st) };
+        let n_in = 1 + rng.below(2) as usize;
+        let n_ops = 2 + rng.below(5) as usize;
+        // op list: (kind, a, b)
+        let mut ops: Vec<(u8, usize, usize)> = vec![];
+        for k in 0..n_ops {
+            let n = n_in + k;
+            ops.push((rng.below(3) as u8, if rng.chance(1, 2) { n - 1 } else { rng.below(n as u64) as usize }, rng.below(n as u64) as usize));
+        }
+        let out_ix = rng.below((n_in + n_ops) as u64) as usize;
+        let wrap = rng.below(3); // 0: main graph, 1: Call, 2: Iterate body
+        let build = |g: &Graph| -> ciphercore_base::errors::Result<Vec<Node>> {
+            let mut nodes = vec![];
+            for _ in 0..n_in {
+                nodes.push(g.input(t.clone())?);
+            }
+            for (k, a, b) in &ops {
+                let (x, y) = (nodes[*a].clone(), nodes[*b].clone());
+                nodes.push(match k {
+                    0 => x.add(y)?,
+                    1 => x.subtract(y)?,
+                    _ => x.multiply(y)?,
+                });
+            }
+            Ok(nodes)
+        };
+        let descr = format!("G: {} inputs, ops {:?}, output = node {} of {}, {}", n_in, ops, out_ix, n_in + n_ops, ["main graph", "called graph", "iterate body"][wrap as usize]);
+        let r = catch(|| -> ciphercore_base::errors::Result<(Value, Value)> {
+            let c = create_context()?;
+            let inner = c.create_graph()?;
+            let nodes = build(&inner)?;
+            let main = if wrap == 0 {
+                nodes[out_ix].set_as_output()?;
+                inner.finalize()?;
+                inner.clone()
+            } else if wrap == 1 {
+                nodes[out_ix].set_as_output()?;
+                inner.finalize()?;
+                let g = c.create_graph()?;
+                let args: Vec<Node> = (0..n_in).map(|_| g.input(t.clone())).collect::<ciphercore_base::errors::Result<_>>()?;
+                g.call(inner.clone(), args)?.set_as_output()?;
+                g.finalize()?;
+                g
+            } else {
+                // body needs exactly (state, input) -> (state, output): use a 2-input variant
+                if n_in != 2 {
+                    return Err(ciphercore_base::runtime_error!("skip"));
+                }
+                inner.create_tuple(vec![nodes[out_ix].clone(), nodes[nodes.len() - 1].clone()])?.set_as_output()?;
+                inner.finalize()?;
+                let g = c.create_graph()?;
+                let s0 = g.input(t.clone())?;
+                let x0 = g.input(t.clone())?;
+                let v = g.create_vector(t.clone(), vec![x0.clone(), x0])?;
+                g.iterate(inner.clone(), s0, v)?.tuple_get(0)?.set_as_output()?;
+                g.finalize()?;
+                g
+            };
+            c.set_main_graph(main.clone())?;
+            c.finalize()?;
+            let inputs: Vec<Value> = (0..n_in).map(|_| match &t { Type::Scalar(_) => gen_array_value(&mut rng.clone(), &[1], st).1, Type::Array(sh, _) => gen_array_value(&mut rng.clone(), sh, st).1, _ => unreachable!() }).collect();
+            // the graph-level API
+            let mut ev = SimpleEvaluator::new(Some([3; 16]))?;
+            ev.preprocess(&c)?;
+            let got = ev.evaluate_graph(main.clone(), inputs.clone())?;
+            // reference: node by node on the inner graph (iterate: two rounds by hand)
+            let mut ev2 = SimpleEvaluator::new(Some([3; 16]))?;
+            ev2.preprocess(&c)?;
+            let mut run_inner = |ins: Vec<Value>| -> ciphercore_base::errors::Result<Vec<Value>> {
+                let mut vals: Vec<Value> = vec![];
+                let mut k = 0;
+                for n in inner.get_nodes() {
+                    if n.get_operation().is_input() {
+                        vals.push(ins[k].clone());
+                        k += 1;
+                    } else {
+                        let d = n.get_node_dependencies().iter().map(|x| vals[x.get_id() as usize].clone()).collect();
+                        vals.push(ev2.evaluate_node(n.clone(), d)?);
+                    }
+                }
+                Ok(vals)
+            };
+            let want = if wrap == 2 {
+                let v1 = run_inner(vec![inputs[0].clone(), inputs[1].clone()])?;
+                let v2 = run_inner(vec![v1[out_ix].clone(), inputs[1].clone()])?;
+                v2[out_ix].clone()
+            } else {
+                run_inner(inputs.clone())?[out_ix].clone()
+            };
+            Ok((got, want))
+        });
+        match r {
+            Err(p) => run.oracle_fail("C09:panic:evaluate_graph", format!("{} : panic {}", descr, trunc(&p, 200))),
+            Ok(Err(e)) => {
+                if format!("{}", e).contains("skip") {
+                    continue;
+                }
+                run.oracle_fail("C09:late-rejection:evaluate_graph", format!("{} : {}", descr, trunc(&format!("{}", e), 200)))
+            }
+            Ok(Ok((got, want))) => {
+                run.oracle_case(&descr, true);
+                run.count(&format!("G:{}", ["main", "call", "iterate"][wrap as usize]));
+                if got != want {
+                    run.oracle_fail("C09:evaluate_graph:differs-from-nodewise", format!("{} : evaluate_graph and node-by-node evaluation differ", descr));
+                }
+            }
+        }
+    }
 }
